@@ -87,7 +87,8 @@ theorem code_round_trip_all_paths (q : Quat ℝ) (hq : q.magnitude2 = 1) :
     fun h h1 h2 => Trace.C05.t_m3_to_quat_yy _ h h1 h2, fun h h1 h2 => Trace.C05.t_m3_to_quat_zz _ h h1 h2,
     fun h h1 h2 h3 => Trace.C05.t_m3_to_quat_zz2 _ h h1 h2 h3, paths_exhaustive q.toM3⟩
 
-/-- **the selected path, kernels composed, with the sign**: for every unit quaternion exactly one of five things happens —
+/-- **the selected path, kernels composed, with the sign**: for every unit quaternion one of five things happens (stated as an inclusive
+`∨`; that exactly one path is consistent is `m3_to_quat_exactly_one`, `E2E/C05g.lean`) —
 the path condition of a kernel holds and that kernel, fed the output list of the traced quaternion→matrix kernel, returns `q`
 if the component it computes first (`w`, `x`, `y`, `z`, `z`) is positive and `-q` if negative (it is never zero) -/
 theorem code_round_trip_selected (q : Quat ℝ) (hq : q.magnitude2 = 1) :
